@@ -217,6 +217,9 @@ class CellSession:
 
 
 def run_scenario(scn, seed=0):
+    import random as _random
+    import zlib
+    _random.seed(zlib.crc32(scn["id"].encode()) ^ 0x5eed)     # Python's global generator seeds every default RandState
     s = CellSession(scn)
     W = s.world()
     try:
